@@ -195,11 +195,25 @@ func c07Scenarios(tier string) []engine.Scenario {
 		pids = append(pids, "trail@x.io;", "x", "nul\x00byte\xff@x.io")
 	}
 	var out []engine.Scenario
+	type pv struct {
+		pid      string
+		nilState bool
+	}
+	var pvs []pv
 	for _, x := range pids {
-		x := x
+		pvs = append(pvs, pv{x, false})
+	}
+	// a session store that has no state at all for a browser without a session (ReadState returns nil)
+	pvs = append(pvs, pv{"a@x.io", true})
+	for _, v := range pvs {
+		x := v.pid
+		name := "pid=" + fmt.Sprintf("%q", x)
+		if v.nilState {
+			name += ",nil-state-store"
+		}
 		sc := engine.Scenario{
-			Name: "pid=" + fmt.Sprintf("%q", x), Depth: depth,
-			Cfg: world.Config{Modules: []string{"auth", "remember", "logout"}, ProtFail: authboss.RespondNotFound},
+			Name: name, Depth: depth,
+			Cfg: world.Config{Modules: []string{"auth", "remember", "logout"}, ProtFail: authboss.RespondNotFound, NilEmptyState: v.nilState},
 			Init: func(s *world.Stack) *world.World {
 				w := world.NewWorld("B1", "B2")
 				flows.SeedAcct(s, w, flows.Acct{PID: x, Password: P1})
